@@ -20,8 +20,19 @@ def main():
         print("usage: check.py Cxx [--tier quick|thorough] [--seed N] [--replay file]")
         sys.exit(2)
     pid = sys.argv[1].upper()
+    # EPANET's toolkit (and a few WNTR writers) drop temporary files ("enXXXXXX", temp.inp ...) into the current directory
+    # and leave them there when a run is cut short: run from a private scratch directory that is removed at exit.
+    import atexit, shutil, tempfile
+    argv = sys.argv[2:]
+    for i, a in enumerate(argv):
+        if a == "--replay" and i + 1 < len(argv):
+            argv[i + 1] = os.path.abspath(argv[i + 1])
+    os.makedirs(os.path.join(vlib.BUILD, "cwd"), exist_ok=True)
+    cwd = tempfile.mkdtemp(prefix=pid + "-", dir=os.path.join(vlib.BUILD, "cwd"))
+    atexit.register(shutil.rmtree, cwd, True)
+    os.chdir(cwd)
     mod = importlib.import_module(pid.lower())
-    vlib.run_check(getattr(mod, pid), sys.argv[2:])
+    vlib.run_check(getattr(mod, pid), argv)
 
 
 if __name__ == "__main__":
